@@ -22,26 +22,8 @@ import common
 PROP = 'C11'
 
 
-def _lake_with_fresh_tables(args, timeout=3000):
-    """common.lake, with the C11 tables re-extracted INSIDE the shared build lock.
-    Generated/Atomic.lean is re-written by the extraction step of every builder's check (from that builder's
-    repo); while several checks run concurrently the file may have been overwritten from another repo during the
-    wait for the lock.  Re-extracting under the lock makes the build see the tables of THIS run's repo."""
-    import fcntl
-    import subprocess
-    os.makedirs(os.path.join(common.LEAN, '.lake'), exist_ok=True)
-    with open(os.path.join(common.LEAN, '.lake', 'verif.lock'), 'w') as lk:
-        fcntl.flock(lk, fcntl.LOCK_EX)
-        if args and args[0] == 'build':
-            sys.path.insert(0, os.path.join(common.VERIF, 'tools'))
-            import extract
-            extract.main(common.REPO, only=['atomic'])
-        p = subprocess.run(['lake'] + args, cwd=common.LEAN, stdout=subprocess.PIPE, stderr=subprocess.STDOUT,
-                           text=True, timeout=timeout)
-    return p.returncode, p.stdout
-
-
-common.lake = _lake_with_fresh_tables
+# (the lead's common.lean_check now extracts the generated tables under the shared build lock, so the
+# C11-specific re-extraction wrapper that used to live here is no longer needed)
 
 BASE_NSS = ['root/a', 'root/b', 'root/c']
 QDECLS = [
